@@ -5,7 +5,7 @@ import vlib, suites
 from fhgen import *
 
 RULE = ("all pairs of adjacent functions (same module) and adjacent modules with different sp deltas, three DWARF "
-        "presentations, both architectures, probed at the shared boundary as return address and as instruction "
+        "presentations, and functions that end their image with nothing mapped behind (incl. the highest image), both architectures, probed at the boundary as return address and as instruction "
         "pointer; distinct = (arch, presentation, same-module|cross-module, address kind)")
 ASSUMPTIONS = ["stack reader is a pure partial function"]
 TRUSTED_BASE = ["modelled not verified: gimli FDE/row selection"]
@@ -21,7 +21,7 @@ def generate(rng, tier):
         for rep in range(reps):
             s = Script(arch)
             base_stack = 0x7000
-            s.mem("S", [(base_stack + 8 * i, 0x50000 + i) for i in range(64)])
+            s.mem("S", [(base_stack + 8 * i, 0x50000 + i) for i in range(64)])       # 0x7100 / 0x7108: frame record for the fallback
             s.add("new U"); s.add("newcache C")
             mi = 0
             probes = []
@@ -42,9 +42,24 @@ def generate(rng, tier):
                 e1 = a0 + 0x100 + lenF          # F|G boundary (same module)
                 e2 = endA                       # G|H boundary (module boundary)
                 probes += [(pres, "same", e1, 2, 3), (pres, "cross", e2, 3, 4)]
-                pos = endA + lenH + 0x10 + 0x1000 * rng.range(1, 4)
+                # module C: its last function runs to the very end of the image and nothing is mapped behind it
+                # (a noreturn call as the last instruction of the image; for the last C, of the whole address space known)
+                c0 = endA + lenH + 0x10 + 0x100 * rng.range(1, 4)
+                lenK = rng.choice([1, 2, 0x10])
+                fC = [dict(start=bs + 0x20, len=lenK, rows=[(0, delta_row(arch, 5))])]
+                s.module_dwarf("M%d" % mi, c0, c0 + 0x20 + lenK, c0, bs, pres, fC, rng)
+                s.add("add U M%d" % mi); mi += 1
+                probes.append((pres, "last", c0 + 0x20 + lenK, 5, None))
+                pos = c0 + 0x20 + lenK + 0x1000 * rng.range(1, 4)
             for (pres, kind, e, kF, kG) in probes:
                 for ak, k in (("ra", kF), ("ip", kG)):
+                    if k is None:
+                        # no module there: the frame-pointer fallback (new sp = fp + 16)
+                        sp = base_stack + 8 * rng.range(0, 8) * (1 if arch == "x86" else 2)
+                        regs = s.regs_x86(e, sp, 0x7100) if arch == "x86" else s.regs_a64(M64, 0x4444, sp, 0x7100)
+                        ln = s.add("unwind U C %s %s %s S" % (ak, hx(e), regs), tag="%s:%s:%s:%s" % (arch, pres, kind, ak))
+                        s.meta[ln] = {"sp": sp, "delta": 0x7110 - sp, "arch": arch}
+                        continue
                     sp = base_stack + 8 * rng.range(0, 8) * (1 if arch == "x86" else 2)
                     regs = s.regs_x86(e, sp, 0x7100) if arch == "x86" else s.regs_a64(M64, 0x4444, sp, 0x7100)
                     ln = s.add("unwind U C %s %s %s S" % (ak, hx(e), regs), tag="%s:%s:%s:%s" % (arch, pres, kind, ak))
